@@ -971,3 +971,48 @@ impl SrtlaConnection {
         self.reconnection.reconnect_failure_count = 0;
     }
 }
+
+/// Observation / injection of the `pub(crate)` link fields for the out-of-tree
+/// checker (feature `verif-hooks`). Add-only; no production code uses it.
+#[cfg(feature = "verif-hooks")]
+#[derive(Clone, Copy, Debug, PartialEq)]
+pub struct VerifHidden {
+    pub stall_latched_since_ms: u64,
+    pub stall_recovery_since_ms: u64,
+    pub stall_gate_events: u64,
+    pub stall_probe_counter: u32,
+    pub silence_pulled: bool,
+    pub silence_pulls: u64,
+    pub conn_timeout_ms: u64,
+    pub quality_multiplier: f64,
+    pub quality_last_calculated_ms: u64,
+}
+
+#[cfg(feature = "verif-hooks")]
+impl SrtlaConnection {
+    pub fn verif_hidden(&self) -> VerifHidden {
+        VerifHidden {
+            stall_latched_since_ms: self.stall_latched_since_ms,
+            stall_recovery_since_ms: self.stall_recovery_since_ms,
+            stall_gate_events: self.stall_gate_events,
+            stall_probe_counter: self.stall_probe_counter,
+            silence_pulled: self.silence_pulled,
+            silence_pulls: self.silence_pulls,
+            conn_timeout_ms: self.conn_timeout_ms,
+            quality_multiplier: self.quality_cache.multiplier,
+            quality_last_calculated_ms: self.quality_cache.last_calculated_ms,
+        }
+    }
+
+    pub fn verif_set_hidden(&mut self, h: VerifHidden) {
+        self.stall_latched_since_ms = h.stall_latched_since_ms;
+        self.stall_recovery_since_ms = h.stall_recovery_since_ms;
+        self.stall_gate_events = h.stall_gate_events;
+        self.stall_probe_counter = h.stall_probe_counter;
+        self.silence_pulled = h.silence_pulled;
+        self.silence_pulls = h.silence_pulls;
+        self.conn_timeout_ms = h.conn_timeout_ms;
+        self.quality_cache.multiplier = h.quality_multiplier;
+        self.quality_cache.last_calculated_ms = h.quality_last_calculated_ms;
+    }
+}
